@@ -35,6 +35,7 @@ class Machine:
         self.stack = []
         self.depth = 0
         self.max_depth = max_depth
+        self.trace = None          # list -> one record (function, ip, frames, open scope markers, operand-stack size) per instruction
 
     # ---------------------------------------------------------------- call stack (stack.rs)
     def find_name(self, name):
@@ -116,6 +117,8 @@ class Machine:
 
         while ip < n:
             o.tick()
+            if self.trace is not None:
+                self.trace.append((name, ip, len(self.stack), scopes, len(ops)))
             ins = code[ip]
             op, a = ins.op, ins.args
             nxt = ip + 1
@@ -501,11 +504,14 @@ class Machine:
                 raise Unsupported("opcode `%s` has no summary in engine D" % op)
             ip = nxt
         # function concludes without ret
+        if self.trace is not None:
+            self.trace.append((name, n, len(self.stack), scopes, len(ops)))
         self.pop_frame()
         return None
 
 
-def run_module(funcs, module_path, oracle, inputs, **kw):
+def run_module(funcs, module_path, oracle, inputs, trace=None, **kw):
     m = Machine(funcs, module_path, oracle, inputs, **kw)
+    m.trace = trace
     m.run_function("__module__", [], None)
     return None
